@@ -156,30 +156,27 @@ def r14_3_compact_milliseconds(ctx: Ctx) -> RuleResult:
     rf = M.find_method(rc, "read_milliseconds")
     if rf is None:
         raise AnalysisError("_DateTimeZoneReader.read_milliseconds missing")
-    table_r = []
-    for n in ast.walk(rf.node):
-        if isinstance(n, ast.Assign) and len(n.targets) == 1 and isinstance(n.targets[0], ast.Name) and n.targets[0].id == "millis":
-            v = n.value
-            mult = 1
-            if isinstance(v, ast.BinOp) and isinstance(v.op, ast.Mult):
-                k = M.fold(v.right, rf.cls, rf.mod)
-                if not isinstance(k, int):
-                    k = M.fold(v.left, rf.cls, rf.mod)
-                mult = k if isinstance(k, int) else None
-            # flag governing this assignment: enclosing match case value or the `& 128 == 0` arm
-            flag = 0
-            p = getattr(n, "_parent", None)
-            while p is not None and not isinstance(p, ast.FunctionDef):
-                if isinstance(p, ast.match_case) and isinstance(p.pattern, ast.MatchValue):
-                    fv = M.fold(p.pattern.value, rf.cls, rf.mod)
-                    flag = fv if isinstance(fv, int) else -1
-                p = getattr(p, "_parent", None)
-            table_r.append((flag, mult))
+    # reader side, decided by abstract evaluation (independent of match / if-chain / early-return shape): with every byte read
+    # unknown, each returning path must yield exactly the value range of one writer arm: [0, 2**bits - 1] * divisor - one day
+    from ..absint import Iv
+    from ..oblig import interp as mk
+
+    DATA_BITS = {0: 7, 128: 13, 160: 21, 192: 29}  # header -> data bits of the documented format (first byte + payload bytes)
+    MPD = M.fold_class_const("PyodaConstants", "MILLISECONDS_PER_DAY")
+    I = mk(ctx)
+    I.max_depth = 5
+    I.stubs["_DateTimeZoneReader.read_byte"] = lambda a, k, r: Iv(0, 255)
+    I.stubs["_DateTimeZoneReader.__read_int16"] = lambda a, k, r: Iv(-32768, 32767)
+    rets, _ = I.analyse(rf)
+    rr.states += I.steps
+    got = sorted({(v.lo, v.hi) for v, _ in rets if isinstance(v, Iv)})
+    want = sorted({(-MPD, (2 ** DATA_BITS[h] - 1) * k - MPD) for (h, k) in table_w if h in DATA_BITS})
+    table_r = got
     rr.inst()
-    if sorted(table_w) == sorted(table_r):
-        rr.ok({"writer_table(header,divisor)": sorted(table_w), "reader_table(flag,multiplier)": sorted(table_r)})
+    if got == want and len(want) == len(table_w):
+        rr.ok({"writer_table(header,divisor)": sorted(table_w), "reader_value_ranges": [[int(a), int(b)] for a, b in got]})
     else:
-        rr.fail(rf.qual, f"reader arms (flag, multiplier) {sorted(table_r)} differ from writer arms (header, divisor) {sorted(table_w)}", ctx.loc(rf))
+        rr.fail(rf.qual, f"reader decodes the value ranges {[(int(a), int(b)) for a, b in got]}; the writer's arms (header, divisor) {sorted(table_w)} produce {[(int(a), int(b)) for a, b in want]}", ctx.loc(rf))
     return rr
 
 
@@ -405,4 +402,76 @@ def r14_5_primitives(ctx: Ctx) -> RuleResult:
         rr.ok({"read_count": [repr(v) for v, _ in rets]})
     else:
         rr.fail(rcnt.qual, f"read_count may return a value above {INT_MAX}: {[v for v, _ in rets]}", ctx.loc(rcnt))
+    return rr
+
+
+@rule("C14")
+def r14_8_twin_delegation(ctx: Ctx) -> RuleResult:
+    """A reader primitive delegates to the mirror image of what its writer twin delegates to: write_signed_count -> write_varint
+    means read_signed_count -> read_varint (an unchecked raw read), not a range-checked read of a different primitive."""
+    from ..kit import own_nodes
+
+    rr = RuleResult("R14.8", "reader/writer twins delegate to mirrored primitives (where write_X is a thin wrapper of write_Y, read_X wraps read_Y): no extra range restriction or different framing on one side", min_instances=2)
+    M = ctx.M
+    rd, wr = M.cls("_DateTimeZoneReader"), M.cls("_DateTimeZoneWriter")
+
+    def delegates(c, f, prefix):
+        out = []
+        for n in own_nodes(f.node):
+            if isinstance(n, ast.Call) and isinstance(n.func, ast.Attribute) and isinstance(n.func.value, ast.Name) and n.func.value.id == (f.self_name or "self"):
+                nm = n.func.attr.lstrip("_")
+                if nm.startswith(prefix):
+                    out.append(nm[len(prefix):])
+        return sorted(set(out))
+
+    for name, wf in sorted(wr.methods.items()):
+        base = name.lstrip("_")
+        if not base.startswith("write_") or isinstance(wf.node, ast.Lambda) or name != wf.name:
+            continue
+        tail = base[len("write_"):]
+        rf = rd.methods.get("read_" + tail) or rd.methods.get(mangle(rd.name, "__read_" + tail))
+        if rf is None:
+            continue
+        wd, rdd = delegates(wr, wf, "write_"), delegates(rd, rf, "read_")
+        if len(wd) != 1:
+            continue  # composite framing is compared as byte sequences by R14.1 / R14.3 / R14.4
+        rr.inst()
+        if wd == rdd:
+            rr.ok({"twin": tail, "delegates_to": wd})
+        else:
+            rr.fail(rf.qual, f"read_{tail} delegates to read_{rdd} while write_{tail} delegates to write_{wd}: values the writer can emit are framed or range-checked differently when read back", ctx.loc(rf))
+    return rr
+
+
+@rule("C14")
+def r14_2_decoders_restore_every_field(ctx: Ctx) -> RuleResult:
+    """A decoder that rebuilds an object passes every constructor parameter explicitly: a parameter left to its default is a
+    field the writer stored (or could store) that silently comes back as the default."""
+    from ..kit import bind_args, own_nodes
+
+    rr = RuleResult("R14.2", "decoders (`read` / `_read` class methods of the zone data types) pass every parameter of the constructor they call: no stored field is replaced by a constructor default on the way back", min_instances=5)
+    M = ctx.M
+    for f in sorted(M.funcs.values(), key=lambda g: g.qual):
+        if not f.mod.rel.startswith("pyoda_time/time_zones/") or f.cls is None or f.name not in ("read", "_read") or isinstance(f.node, ast.Lambda):
+            continue
+        if not any(a.annotation is not None and "Reader" in unparse(a.annotation) for a in f.params):
+            continue
+        for n in own_nodes(f.node):
+            if not isinstance(n, ast.Call):
+                continue
+            tg, how = ctx.R.callees(n, f, count=False)
+            ctors = [t for t in tg if t.cls is f.cls and t.name in ("_ctor", "__init__", mangle(f.cls.name, "__ctor"), "__ctor")]
+            if not ctors or how != "resolved":
+                continue
+            c = ctors[-1]
+            rr.inst()
+            try:
+                bound = bind_args(n, c)
+            except Exception:
+                bound = {}
+            missing = [p.arg for p in c.value_params if p.arg not in bound and c.default_of(p.arg) is not None]
+            if missing:
+                rr.fail(f.qual, f"{unparse(n.func)}(...) leaves {missing} to the constructor default: the stored value of that field is not restored when the data is read back", ctx.loc(f, n))
+            else:
+                rr.ok({"decoder": f.qual, "constructor": c.qual, "parameters": len(c.value_params)})
     return rr
